@@ -1,22 +1,66 @@
 /-
 C08 — Year length and year kind describe the actual set of days in the year.
 -/
-import JulianVerif.Lemmas.Proleptic
-import JulianVerif.Lemmas.YearStart
+import JulianVerif.Lemmas.Counts
+import JulianVerif.Lemmas.ReformLength
 namespace JV.C08
 open JV Spec
 
-/-- proleptic calendars: the reported length is the number of days between consecutive
-January firsts, equals the sum of the month lengths, and the kind is Leap/Common by rule -/
-theorem year_proleptic (ρ : Rule) (y : Int) :
-    (ruleCal ρ).yearLength y = yearStart ρ (y + 1) - yearStart ρ y
-    ∧ (ruleCal ρ).yearLength y = (ruleCal ρ).sumAll y Month.all
-    ∧ (ruleCal ρ).yearKind y = (if leap ρ y then .leap else .common) := by
-  refine ⟨?_, ?_, ?_⟩
-  · rw [ruleCal_yearLength, yearStart_succ]; omega
-  · rw [ruleCal_yearLength, (ruleCal_whole ρ y).sumAll]; rfl
-  · cases ρ
-    · exact julian_yearKind y
-    · exact gregorian_yearKind y
+/-- **the reported year length equals the number of dates of the calendar that fall in the
+year**: the days whose date lies in year `y` form one block of exactly `year_length y`
+consecutive day numbers — or there are none and the length is 0 -/
+theorem yearLength_counts (c : Calendar) (hc : WF c) (y : Int) :
+    (c.yearLength y = 0 ∧ ∀ j d, c.atJdn? j = some d → d.year ≠ y)
+    ∨ (0 < c.yearLength y ∧ ∃ a, ∀ j d, c.atJdn? j = some d →
+          (d.year = y ↔ (a ≤ j ∧ j < a + c.yearLength y))) := by
+  obtain ⟨A⟩ := hc.accepting
+  by_cases hl : A.Live y
+  · exact Or.inr ⟨A.pos y hl, A.F y, fun j d h => A.year_block y hl j d h⟩
+  · exact Or.inl (A.year_dead y hl)
+
+/-- **the year length equals the sum of the lengths of its months** (the lemma defect D1
+violated) -/
+theorem yearLength_sum (c : Calendar) (hc : WF c) (y : Int) :
+    c.yearLength y = c.sumAll y Month.all := by
+  obtain ⟨A⟩ := hc.accepting
+  exact A.lenSum y
+
+/-- the year kind of the proleptic calendars -/
+theorem yearKind_proleptic (ρ : Rule) (y : Int) :
+    (ruleCal ρ).yearKind y = (if leap ρ y then .leap else .common) := by
+  cases ρ
+  · exact julian_yearKind y
+  · exact gregorian_yearKind y
+
+/-- **the year kind is Skipped exactly when the year has no dates** -/
+theorem skipped_iff (R : Int) (hR : InI32 R) (c : Calendar) (hc : Calendar.mkReforming R = .ok c)
+    (y : Int) : c.yearKind y = .skipped ↔ c.yearLength y = 0 := by
+  obtain ⟨rf, rfl, _, _⟩ := mk_reform R hR c hc
+  have hpos := rf.yearLength_pos y
+  have hle := rf.yP_le_yQ
+  constructor
+  · intro h
+    by_cases hl : rf.Live y
+    · exfalso
+      -- a live year is never classified Skipped
+      simp only [Reform.Live] at hl
+      rcases Int.lt_trichotomy y rf.yP with a | a | a
+      · rw [rf.yearKind_lt y a] at h; split at h <;> cases h
+      · subst a
+        rcases Int.lt_or_eq_of_le hle with b | b
+        · rw [rf.yearKind_lower b] at h; (repeat' split at h) <;> cases h
+        · rw [rf.yearKind_both b] at h; split at h <;> cases h
+      · rcases Int.lt_trichotomy y rf.yQ with b | b | b
+        · omega
+        · subst b
+          rw [rf.yearKind_upper a] at h; (repeat' split at h) <;> cases h
+        · rw [rf.yearKind_gt y b] at h; split at h <;> cases h
+    · simp only [Reform.Live] at hl
+      exact rf.yearLength_between y (by omega) (by omega)
+  · intro h
+    by_cases hl : rf.Live y
+    · have := hpos hl; omega
+    · simp only [Reform.Live] at hl
+      exact rf.yearKind_between y (by omega) (by omega)
 
 end JV.C08
